@@ -59,4 +59,11 @@ CHECKS["C11"] = {
   "design_ref": "DESIGN.md §5 C11",
   "note": "Laws are decided on the bounded universe only; finite floats and minimal big-integer digits (well-formed terms).",
 }
+CHECKS["C08"] = {
+  "level": "exploration",
+  "technique": "the protocol's control-message table and parse/serialise contract written in TLA+ (Control.tla); TLC enumerates all tag x arity tuples and the table, replayed through ControlMessage::from_term/to_term/into_term and the wire codec",
+  "text": "Every tuple headed by a tag 0..255 with arity 1..10 (distinguishable fillers), unlink messages with ids on both sides of 2^31/2^63/2^64, and non-messages: parses-or-rejects as the spec says, serialises back to the same value by both serialisers and after encode/decode; each of the 30 named operations is compared with the protocol table (tag, arity, field order).",
+  "design_ref": "DESIGN.md §5 C08",
+  "note": "Exhaustive over tags and arities 1..10 with one filler assignment per tuple; table transcribed from the protocol document (trusted). Open finding C08-spawn-arity matched by operation name + exact shape of the deviation.",
+}
 NOT_APPLICABLE = {}
